@@ -13,7 +13,9 @@ Theorem C14_code_records_as_modelled :
    add_record_wf add_record "insert_asset" = true /\
    add_record_wf add_file_record "insert_file" = true /\
    add_record_wf add_dir_record "insert_dir" = true /\
-   insert_checks_reloader Record_insert_asset = true) /\
+   insert_checks_reloader Record_insert_asset = true /\
+   insert_checks_reloader Record_insert_file = true /\
+   insert_checks_reloader Record_insert_dir = true) /\
   (read_records_first Cache_read "add_file_record" = true /\
    read_records_first Cache_read_dir "add_dir_record" = true /\
    lookup_recorded Cache_get_cached_entry_inner = true /\
